@@ -10,7 +10,7 @@ import ecc_file_x as fx
 import ecc_scen as es
 import ecc_util as eu
 
-LEAN_MODULES = ["Pff.Props.C04", "Pff.Props.RunB", "Pff.Props.C02", "Pff.Props.RunD"]
+LEAN_MODULES = ["Pff.Props.C04", "Pff.Props.RunB", "Pff.Props.C02", "Pff.Props.RunD", "Pff.Props.Sound"]
 PROP_MODULE = "Pff.Props.C04"
 THEOREMS = ["Pff.Ecc.C04_truncated_ecc_needs_hash", "Pff.Ecc.C04_block", "Pff.Ecc.C04_intact_untouched", "Pff.Ecc.C04_failed_copied", "Pff.Ecc.C04_length_header",
             "Pff.Ecc.C04_length_whole", "Pff.Ecc.C04_blockwise_header", "Pff.Ecc.C04_blockwise_whole", "Pff.Ecc.C04_failed_not_complete",
@@ -19,7 +19,10 @@ THEOREMS = ["Pff.Ecc.C04_truncated_ecc_needs_hash", "Pff.Ecc.C04_block", "Pff.Ec
             "Pff.RSSpec.C02_decode_within_radius",
             "Pff.RSSpec.C02_decode_full_block_within_radius",
             "Pff.Run.C04_run_blockwise",
-            "Pff.Run.C04_run_conservative"]
+            "Pff.Run.C04_run_conservative",
+            "Pff.RSSpec.C02_decode_sound",
+            "Pff.Sound.C01_block_sound_A",
+            "Pff.Sound.C01_block_sound_B"]
 MODELLED = [("pyFileFixity/header_ecc.py", "main"), ("pyFileFixity/header_ecc.py", "entry_assemble"),
             ("pyFileFixity/structural_adaptive_ecc.py", "main"), ("pyFileFixity/structural_adaptive_ecc.py", "stream_entry_assemble")]
 TRUSTED_BASE = [
